@@ -28,6 +28,7 @@ class Reporter:
         self.known = set(known)
         self.collected: set[str] = set()
         self.holder: dict[str, Any] = {}
+        self.last_fail: tuple[str, str, Any] | None = None
 
     def fail(self, key: str, msg: str) -> None:
         if key in self.known:
@@ -35,6 +36,7 @@ class Reporter:
             return
         if key in self.collected:
             return
+        self.last_fail = (key, msg, self.holder.get("case"))
         raise Fail(key, msg)
 
     def check(self, cond: bool, key: str, msg: str = "") -> None:
@@ -99,6 +101,7 @@ def drive(rep: Reporter, run_once: Callable[[], None], prefix: str, max_buckets:
     test left in rep.holder['case']) and excluded, then the search is repeated."""
     for _ in range(max_buckets):
         rep.holder.pop("case", None)
+        rep.last_fail = None
         try:
             run_once()
             return
@@ -111,6 +114,18 @@ def drive(rep: Reporter, run_once: Callable[[], None], prefix: str, max_buckets:
                     rep.part.notes.append("hypothesis reported the failure as flaky on re-execution: " + str(inner)[:120])
                 exc = inner
             elif isinstance(exc, hypothesis.errors.HypothesisException):
+                lf = rep.last_fail
+                if lf is not None and lf[0] not in rep.collected and "lak" in type(exc).__name__:
+                    # the oracle failed on the real code, but the failure did not repeat when hypothesis re-executed the same
+                    # choices (behaviour depending on real time, e.g. SQL-side clocks): still a violation, reported un-shrunk
+                    rep.part.notes.append(f"failure not reproducible on re-execution ({type(exc).__name__}): {lf[0]}")
+                    if lf[0] in rep.known:
+                        rep.part.known(lf[0])
+                    else:
+                        rep.part.violation(lf[0], lf[1] + " [observed once; not reproduced when the same case was re-executed]", lf[2])
+                    rep.collected.add(lf[0])
+                    rep.last_fail = None
+                    continue
                 raise
             key, msg = _bucket_of(exc, prefix)
             if key in rep.known:
